@@ -89,7 +89,7 @@ def run(ctx):
         # one history without reconfiguration per variant, then one per (plain key, alternative) set between the two fits
         plans = [(0, None), (1, None)] + [(j % 2, w) for j, w in enumerate(plain_sets(entry))]
         if thorough:
-            plans = plans + [(1 - v_, w) for v_, w in plans[2:]]
+            plans = (plans + [(1 - v_, w) for v_, w in plans[2:]]) * 3
         for rep, (variant, which) in enumerate(plans):
             tid += 1
             hist = lifecycle.History(tid, "C03 " + entry.name, "A then B vs fresh clone on B" + (" after set_params(%s)" % which[0] if which else ""))
